@@ -13,14 +13,6 @@ pub mod builder {
         //@extract biscuit-auth/src/token/builder/algorithm.rs :: impl From<crate::format::schema::public_key::Algorithm> for Algorithm :: fn from
         //@end
     }
-    impl crate::verif_std::VerifInto<Algorithm> for crate::format::schema::public_key::Algorithm {
-        open spec fn into_req(self) -> bool { true }
-        open spec fn into_spec(self) -> Algorithm {
-            match self { crate::format::schema::public_key::Algorithm::Ed25519 => Algorithm::Ed25519,
-                         crate::format::schema::public_key::Algorithm::Secp256r1 => Algorithm::Secp256r1 }
-        }
-        fn verif_into(self) -> (r: Algorithm) { Algorithm::from(self) }
-    }
     // stand-in for builder::BlockBuilder (Datalog builder, outside this unit)
     #[verifier::external_body]
     pub struct BlockBuilder { _p: u8 }
@@ -67,6 +59,9 @@ pub mod datalog {
         }
         //@extract biscuit-auth/src/datalog/symbol.rs :: impl SymbolTable :: fn new
         //@ ensures empty: r.strings_view() == Seq::<String>::empty() && r.public_keys.keys@ == Seq::<PublicKey>::empty()
+        //@end
+        //@extract biscuit-auth/src/datalog/symbol.rs :: impl SymbolTable :: fn current_offset
+        //@ ensures len: r == self.strings_view().len()
         //@end
         //@extract biscuit-auth/src/datalog/symbol.rs :: impl SymbolTable :: fn from
         //@ external_body
